@@ -162,7 +162,16 @@ func checkUnique(_ *testing.T, v *ev.Verdict, c UniqueCase) {
 			switch op.K {
 			case "set":
 				if c.Map {
-					mp.SetValues(valsMap)
+					passed := map[int]KV{}
+					for k, x := range valsMap {
+						passed[k] = x
+					}
+					mp.SetValues(passed)
+					// the caller goes on using its map: the KeyedMap's contents are its own
+					for k := range passed {
+						delete(passed, k)
+					}
+					passed[-1] = KV{K: -1, V: 12345}
 					for _, x := range valsMap {
 						apply(model, x)
 					}
@@ -184,7 +193,14 @@ func checkUnique(_ *testing.T, v *ev.Verdict, c UniqueCase) {
 				}
 			case "append":
 				if c.Map {
-					mp.AppendValues(valsMap)
+					passed := map[int]KV{}
+					for k, x := range valsMap {
+						passed[k] = x
+					}
+					mp.AppendValues(passed)
+					for k := range passed {
+						delete(passed, k)
+					}
 					for _, x := range valsMap {
 						apply(model, x)
 					}
